@@ -104,6 +104,46 @@ def rollback_rule(F, R, rid):
 
 
 
+RUNS_PROGRAM = (r"\{impl SteelThread\}::(run_executable|execute)$|\{impl VmCore(<'a>)?\}::vm$|"
+                r"\{impl Engine\}::(run_raw_program|run_executable)$")
+
+
+def rollback_only_before_run_rule(F, R, rid):
+    """the symbol map is rolled back only while nothing of the program has run"""
+    R.rule(rid, "roll-back is for programs that did not run: no call of SymbolMap::roll_back (nor of a function of the "
+                "repository that calls it) is reachable, within its function, from a call that executes a program "
+                "(SteelThread::run_executable / execute, VmCore::vm, Engine::run_raw_program). Once part of a program ran, "
+                "the globals it bound are live and closures carry their slot numbers; forgetting the names makes "
+                "SymbolMap::add hand the same slots to the next definitions, which then overwrite what those closures "
+                "refer to")
+    rb_rx = re.compile(r"^steel::compiler::map::\{impl SymbolMap\}::roll_back$")
+    level0 = set(n for n, fn in F.fns.items() if n.startswith("steel::") and fn.call_blocks(rb_rx))
+    if not level0:
+        raise CheckError("anchor lost: nobody calls SymbolMap::roll_back")
+    targets = {}
+    for n, fn in F.fns.items():
+        if not n.startswith("steel::"):
+            continue
+        blocks = [(i, "SymbolMap::roll_back") for i in fn.call_blocks(rb_rx)]
+        blocks += [(i, lib.short_name(b["callee"])) for i, b in fn.calls() if b["callee"] in level0 and b["callee"] != n]
+        if blocks:
+            targets[n] = blocks
+    k = 0
+    for n, blocks in sorted(targets.items()):
+        fn = F.fns[n]
+        runs = fn.call_blocks(RUNS_PROGRAM)
+        after_run = fn.reachable_from([s for r in runs for s in fn.succ(r)]) if runs else set()
+        for i, what in blocks:
+            k += 1
+            R.inst(rid, "%s / %s only before the program ran" % (fn.short(), what), i not in after_run,
+                   "%s calls %s (line %s) on a path that has already executed the program (line %s): the names the program "
+                   "bound before it failed are forgotten although their slots hold live values; the next definitions are "
+                   "given those slots and overwrite what surviving closures refer to" % (
+                       fn.short(), what, fn.blocks[i].get("line"), fn.blocks[runs[0]].get("line") if runs else "?"),
+                   fn.loc(fn.blocks[i].get("line")), sample=True)
+    R.floor(rid, "roll-back call sites", k, 2)
+
+
 def rollback_threshold_rule(F, R, rid):
     """SymbolMap::roll_back(index) keeps exactly the half-open range [0, index) in BOTH tables: either the map entries are
     removed by the names drained from `values` (coupled form), or the map's keep-predicate is `slot < index` — the same
@@ -139,6 +179,20 @@ def rollback_threshold_rule(F, R, rid):
            "values.drain(index..) nor keeps map entries with `slot < index`; a name registered by the failed program at the "
            "checkpoint index survives the rollback and resolves to a slot that no longer exists (host panic on use) or is "
            "handed to the next definition", rb.loc(), sample={"coupled": coupled, "retain_predicate_strict": pred_ok})
+
+    # a name the rolled-back program REdefined must mean its previous definition again: after the cut the function writes
+    # the name table (map.insert) with a slot it takes out of FreeList.shadowed_slots (the slot stops being a recycling
+    # candidate). Without it the name is unbound after a failed build although nothing of the program ran.
+    inserts = [i for i, b in fam_calls if re.search(r"HashMap<K,V,S[^}]*\}::insert$", b["callee"])]
+    cut = [i for i, b in fam_calls if re.search(r"Vec<T,A>\}::(drain|truncate|split_off)$|HashMap<K,V,S[^}]*\}::(remove|retain|extract_if)$", b["callee"])]
+    after_cut = rb.reachable_from([s_ for c in cut for s_ in rb.succ(c)]) if cut else set()
+    reads_shadowed = any(e[1] == "FreeList" and e[2] == "shadowed_slots" for _, e in lib.family_events(F, rb, "fld"))
+    takes = [i for i, b in fam_calls if re.search(r"Vec<T,A>\}::(remove|swap_remove|retain|pop|drain)$", b["callee"])]
+    R.inst(rid, "SymbolMap::roll_back / a redefined name gets its previous slot back",
+           any(i in after_cut for i in inserts) and reads_shadowed and any(i in after_cut for i in takes),
+           "SymbolMap::roll_back only forgets the names of the failed program: a name that the program redefined is left "
+           "unbound (its previous slot is still in FreeList.shadowed_slots and nothing maps to it) — after "
+           "(define x 1) and a failing (begin (define x 2) (undefined-fn)), x is a free identifier", rb.loc(), sample=True)
 
 
 def shadow_bookkeeping_rule(F, R, rid):
@@ -234,6 +288,7 @@ def _run(F, R, ctx):
            "only by that closure's instructions are recycled while the closure is live", vc.loc(), sample=True)
 
     rollback_rule(F, R, "C06.B")
+    rollback_only_before_run_rule(F, R, "C06.P")
 
     # ---- S bookkeeping
     writers = {}
